@@ -535,7 +535,25 @@ pub async fn snapshot_records(n: &NodeH, tag: &str) -> anyhow::Result<Vec<(Strin
         if rec.key == b"__already_sync" {
             continue;
         }
-        out.push((rec.tree.as_ref().clone(), rec.key, rec.value));
+        // a blank config type / description is observed as an absent one (see wl::cfg_get): normalise the raw config record
+        let mut value = rec.value;
+        if rec.tree.as_str().contains("CONFIG") {
+            if let Ok(mut d) = rnacos::config::model::ConfigValueDO::from_bytes(&value) {
+                let blank = |o: &Option<String>| o.as_ref().map(|s| s.is_empty()).unwrap_or(false);
+                if blank(&d.config_type) || blank(&d.desc) {
+                    if blank(&d.config_type) {
+                        d.config_type = None;
+                    }
+                    if blank(&d.desc) {
+                        d.desc = None;
+                    }
+                    if let Ok(v) = d.to_bytes() {
+                        value = v;
+                    }
+                }
+            }
+        }
+        out.push((rec.tree.as_ref().clone(), rec.key, value));
     }
     out.sort();
     tokio::fs::remove_file(&path).await.ok();
